@@ -51,6 +51,12 @@ def cases(tier, seed):
                         if r == 0 and vs in ('complex', 'real', 'lowrank') and t in ('0', '1e-4'):
                             # the error bounds are relative: the same vector at a scale where squares under- / overflow (exact power of two)
                             yield dict(kind='from_vector', n=n, d=d, vstyle=vs, tol=t, scale2=(-600, 600)[(n + d) % 2], seed=int(rng.integers(1 << 31)))
+    # vectors made of a dominant weakly entangled branch and a low-weight, highly entangled branch (the error bound sqrt(L tol) of
+    # the sequential splitting is attained only if the weights travel with the remainder)
+    for r in range(6 if tier == 'quick' else 40):
+        n, h = (12, 4) if r % 2 == 0 else (13, 5)
+        eps, b2 = ((0.05, 0.33), (0.03, 0.3))[r % 2] if r < 4 else (float(rng.uniform(0.03, 0.06)), float(rng.uniform(0.27, 0.38)))
+        yield dict(kind='from_vector', n=n, d=2, vstyle='branch', h=h, tol=('0.02', '0.01')[r % 2], eps=eps, b2=b2, seed=int(rng.integers(1 << 31)))
     # the tolerance rule itself on exactly representable spectra: ties between tol and a cumulative weight, exact zeros
     # (decided in exact rational arithmetic; shared with the C12 stand-in)
     from . import r_C12
@@ -268,6 +274,28 @@ def run_case(c):
     return dict(failures=fails, nontrivial=not trivial, key=key)
 
 
+def _basis(bits):
+    v = np.array([1.0])
+    for b in bits:
+        e = np.zeros(2); e[b] = 1.0
+        v = np.kron(v, e)
+    return v
+
+
+def branch_vector(n, h, eps, b2):
+    """|0> (x) Phi sqrt(1 - eps) + |1> (x) Psi sqrt(eps): Phi is a product state up to site h with one Schmidt pair (1 - b2, b2)
+    behind it, Psi has a flat Schmidt spectrum of rank 2^h"""
+    m = n - 1
+    psi = np.zeros(2 ** m)
+    for x in range(2 ** h):
+        xb = [(x >> k) & 1 for k in range(h)]
+        psi += _basis(xb + [1] + xb + [0] * (m - 2 * h - 1))
+    psi /= np.linalg.norm(psi)
+    phi = np.kron(_basis([0] * h), np.sqrt(1 - b2) * _basis([0] * (m - h)) + np.sqrt(b2) * _basis([1] * (m - h)))
+    v = np.concatenate([np.sqrt(1 - eps) * phi, np.sqrt(eps) * psi])
+    return v / np.linalg.norm(v)
+
+
 def make_vector(rng, d, n, vs, tol):
     N = d ** n
     if vs == 'complex':
@@ -322,7 +350,7 @@ def make_vector(rng, d, n, vs, tol):
 def run_from_vector(c, rng, fail, fails, key):
     n, d = c['n'], c['d']
     tol = tol_value(n, c['tol'])
-    v = make_vector(rng, d, n, c['vstyle'], tol)
+    v = branch_vector(n, c['h'], c['eps'], c['b2']) if c['vstyle'] == 'branch' else make_vector(rng, d, n, c['vstyle'], tol)
     nv = float(np.linalg.norm(v))
     if nv < 1e-12:
         return dict(failures=[], nontrivial=False, key=key)
